@@ -3,7 +3,8 @@ From Coq Require Import List String.
 From VQ.Gen Require Import pat_fsq_decode.
 Import ListNotations.
 Open Scope string_scope.
-Lemma pin_pat_fsq_decode : pat_fsq_decode =
+Definition pinned_pat_fsq_decode : list (string * string) :=
   [("rearrange", "... c d -> ... (c d)");
    ("rearrange", "b ... d -> b d ...")].
+Lemma pin_pat_fsq_decode : pat_fsq_decode = pinned_pat_fsq_decode.
 Proof. reflexivity. Qed.
